@@ -81,7 +81,33 @@ func determinism(opts map[string]string) int {
 		}
 	}
 	fmt.Printf("determinism: %d seeds x %d processes (GOMAXPROCS 1/4/16), %d runs, %d seeds diverged\n", len(tags), reps, total, div)
-	if div > 0 || total != len(tags)*reps {
+	// replay fidelity: the recorded decision trace of every run, executed instead
+	// of drawn, must give the same log (a trace that names something by an id
+	// drawn at run time would not)
+	wo := runWorker([]string{"SIM_MODE=seeds", "SIM_PROP=DET", "SIM_PROFILES=" + strings.Join(profiles, ","), "SIM_BATCH=7", "SIM_FROM=0", fmt.Sprintf("SIM_TO=%d", n), "SIM_KEEP_TRACE=1"}, 780)
+	rdiv, rtot := 0, 0
+	for lo := 0; lo < len(wo.results); lo += 100 {
+		hi := lo + 100
+		if hi > len(wo.results) {
+			hi = len(wo.results)
+		}
+		var items []workItem
+		for _, r := range wo.results[lo:hi] {
+			items = append(items, workItem{Cfg: withTrace(r.Cfg, r.Res.Trace)})
+		}
+		res, _ := runItems(items, false)
+		for i, r := range wo.results[lo:hi] {
+			rtot++
+			if i >= len(res) || res[i].Res.Hash != r.Res.Hash || res[i].Res.Steps != r.Res.Steps {
+				rdiv++
+				if rdiv <= 10 {
+					fmt.Printf("REPLAY-DIVERGENCE seed %s/%s\n", r.Cfg.Profile, r.Tag)
+				}
+			}
+		}
+	}
+	fmt.Printf("replay fidelity: %d recorded traces replayed, %d gave a different log\n", rtot, rdiv)
+	if div > 0 || total != len(tags)*reps || rdiv > 0 {
 		return 2
 	}
 	return 0
@@ -272,4 +298,60 @@ func minIdx(opts map[string]string) int {
 	}
 	fmt.Println("no such violation")
 	return 1
+}
+
+// diverge runs one seed index with its log, replays the recorded trace, and
+// prints the first place where the two logs differ (development aid).
+func diverge(opts map[string]string) int {
+	profile := opts["profile"]
+	if profile == "" {
+		profile = "core"
+	}
+	prop := opts["prop"]
+	if prop == "" {
+		prop = "ANY"
+	}
+	idx, _ := strconv.Atoi(opts["idx"])
+	wo := runWorker([]string{"SIM_MODE=seeds", "SIM_PROP=" + prop, "SIM_PROFILES=" + profile, fmt.Sprintf("SIM_BATCH=%d", batchSeed()),
+		fmt.Sprintf("SIM_FROM=%d", idx), fmt.Sprintf("SIM_TO=%d", idx+1), "SIM_LINES=1", "SIM_KEEP_TRACE=1"}, 779)
+	if len(wo.results) != 1 {
+		fmt.Println("no result")
+		return 1
+	}
+	r := wo.results[0]
+	res, _ := runItems([]workItem{{Cfg: withTrace(r.Cfg, r.Res.Trace)}}, true)
+	if len(res) != 1 {
+		fmt.Println("no replay result")
+		return 1
+	}
+	a, b := r.Res.Lines, res[0].Res.Lines
+	for i := 0; i < len(a) || i < len(b); i++ {
+		var x, y string
+		if i < len(a) {
+			x = a[i]
+		}
+		if i < len(b) {
+			y = b[i]
+		}
+		if x != y {
+			for j := i - 12; j < i; j++ {
+				if j >= 0 {
+					fmt.Println("   ", a[j])
+				}
+			}
+			for j := i; j < i+8; j++ {
+				if j < len(a) {
+					fmt.Println("ORIG", a[j])
+				}
+			}
+			for j := i; j < i+8; j++ {
+				if j < len(b) {
+					fmt.Println("REPL", b[j])
+				}
+			}
+			return 0
+		}
+	}
+	fmt.Println("logs identical:", len(a), "lines")
+	return 0
 }
